@@ -1293,7 +1293,6 @@ class HttpHeaderFieldValuePublicKeyPinning(FieldsSemicolonSeparated):
     max_age = attr.ib(
         converter=HttpHeaderFieldValueComponentMaxAge.convert,
         validator=attr.validators.instance_of(HttpHeaderFieldValueComponentMaxAge),
-        default=None
     )
     include_subdomains = attr.ib(
         converter=HttpHeaderFieldValueComponentIncludeSubDomains.convert,
